@@ -199,7 +199,7 @@ def run(prop, tier="quick", seed=0, replay=None, only=None):
     if replay:
         return do_replay(prop, replay, contracts, interp)
 
-    timeout = 10 if tier == "quick" else 60
+    timeout = 25 if tier == "quick" else 90      # (sized so that verdicts do not flip when all cores are busy)
     all_obs = []
     infos = {}
     undecided = []
@@ -314,6 +314,10 @@ def run(prop, tier="quick", seed=0, replay=None, only=None):
             continue
         if obs[0].meta.get("contract") in unfit:
             continue
+        if any(o.verdict == "sat" and (o.meta or {}).get("sum_congruence") == "inconclusive" for o in obs) \
+                and not any(o.verdict == "sat" and (o.meta or {}).get("sum_congruence") != "inconclusive" for o in obs):
+            undecided.append(f"{name}: the sums in the goal could not be compared within the solver budget")
+            continue
         if any(v == "sat" for v in verdicts):
             failed_names.append(name)
             if any(v[0] == name for v in violations):
@@ -329,7 +333,9 @@ def run(prop, tier="quick", seed=0, replay=None, only=None):
             rcd = cd
             if cd.replay_with:
                 rcd = [c for c in all_contracts if c.name == cd.replay_with][0]
-            if ob.values and rcd.native:
+            if ob.values and rcd.native and rcd is cd:
+                # (a counter-model is only meaningful as input of the contract it came from: a companion harness has its
+                # own input names and ranges -- a model value such as d = 10^9 must never reach it)
                 r = native_runs(rcd, None, 0, 1, inputs=ob.values)
                 for f in r["failures"]:
                     found = f
